@@ -2,35 +2,13 @@
 import random
 
 from checks import oracles
-from checks.durable_check import replay_execution, run_durable
+from checks.durable_check import fault_enumeration, replay_execution, run_durable
 from checks.durable_common import CURATED, run_campaign
 from harness.backend import FAULTS
 
 
-def fault_enumeration(ctx, execs_out):
-    """every program x every API call index x every error class"""
-    rng = random.Random(ctx.seed + 606)
-    names = ["s01_step_wait_retry", "s02_amo_retry_caughtfail", "s03_child_wfc", "s04_cb_invoke", "s08_large_child", "s09_large_final",
-             "s12_wfc_three_polls"]
-    faults = list(FAULTS) if not ctx.quick else ["throttle429", "invalid_param", "invalid_token"]
-    items = []
-    for nm in names:
-        prog = CURATED[nm]
-        from harness.driver import Execution
-        e0 = Execution(prog, {"seed": 1}).run()
-        ncalls = e0.backend.api_calls
-        for k in range(1, ncalls + 1):
-            for f in faults:
-                for rep in range(1 if ctx.quick else 3):
-                    items.append((prog, {"seed": rng.randrange(1 << 30), "faults": {str(k): f},
-                                         "strategy": "pct" if rep else "random", "max_inv": 14}))
-    ex = run_campaign(ctx, items)
-    ctx.notes["fault_positions"] = len(items)
-    for e in ex:
-        oracles.c06(ctx, e)
-        oracles.c18(ctx, e)
-    execs_out.extend(ex)
-    return ex
+NAMES = ["s01_step_wait_retry", "s02_amo_retry_caughtfail", "s03_child_wfc", "s04_cb_invoke", "s08_large_child", "s09_large_final",
+         "s12_wfc_three_polls", "s22_slow_steps", "s23_slow_caught", "s24_blanket_except"]
 
 
 def run(ctx):
@@ -41,7 +19,7 @@ def run(ctx):
                         oracle_fns=[oracles.c06, oracles.c18],
                         n_random_progs=(3, 30),
                         scen_kw={"crash": 0.1, "faults": 1.0, "pct": 0.5},
-                        post=lambda c, ex: fault_enumeration(c, extra),
+                        post=lambda c, ex: fault_enumeration(c, NAMES, [oracles.c06, oracles.c18, oracles.c03]),
                         model_kw={"max_api_fails": 1},
                         extra_rule="Fault enumeration: each curated program x each checkpoint API call index x each error class. Oracle: after the "
                                    "failing call no further API call, no unrecorded outcome reported, never SUCCEEDED/PENDING, raise vs FAILED per the "
